@@ -215,6 +215,6 @@ int main(int argc, char** argv) {
   vh::Args args(argc, argv);
   { std::stringstream ss(args.get("props")); std::string p; while (std::getline(ss, p, ',')) if (!p.empty()) g_props.insert(p); }
   InstallHook();
-  vh::IsoOptions iso; iso.faultProperty = "C12"; iso.batch = 500; iso.watchdogSeconds = 20;
+  vh::IsoOptions iso; iso.faultProperty = "C12"; iso.batch = 500; iso.watchdogSeconds = 90;
   return vh::Main(argc, argv, Handle, true, iso);
 }
